@@ -318,7 +318,8 @@ func (r *Renderer) bare(n *Node, c ectx) string {
 		}
 		return "(" + r.list(n.A) + ") in " + n.Name
 	case Cond:
-		return r.expr(n.A[0], pOr, c, false) + " ? " + r.expr(n.A[1], pCond, c, false) + " : " + r.expr(n.A[2], pCond, c, false)
+		// the true branch is bracketed by ? and :, so a bare > or | getline in it is not a redirection, even in print arguments
+		return r.expr(n.A[0], pOr, c, false) + " ? " + r.expr(n.A[1], pCond, ectx{}, false) + " : " + r.expr(n.A[2], pCond, c, false)
 	case Assign:
 		return r.expr(n.A[0], pLowest, ectx{}, true) + " " + n.Op + " " + r.expr(n.A[1], pAssign, c, false)
 	case Incr:
